@@ -115,3 +115,15 @@ Section Encoder.
 
   Definition encode (keep_math enclose_urls : bool) (s : str) : str := enc_go keep_math enclose_urls false 0 s.
 End Encoder.
+
+(* ---- the constructors' option logic (LatexEncodingMiddleware.__init__ / LatexDecodingMiddleware.__init__):
+   a custom converter excludes the two switches (ValueError); a switch left at None takes its default.
+   [None] = not given.  Result: None = ValueError, Some (custom?, a, b) = the configuration in effect. *)
+Definition resolve_options (custom : bool) (a b : option bool) (da db : bool) : option (bool * bool * bool) :=
+  if custom && (match a with Some _ => true | None => false end || match b with Some _ => true | None => false end)
+  then None
+  else Some (custom, match a with Some x => x | None => da end, match b with Some x => x | None => db end).
+(* encoder: keep_math, enclose_urls default True; decoder: keep_braced_groups default False, keep_math_mode default True *)
+Definition encoder_options (custom : bool) (keep_math enclose_urls : option bool) := resolve_options custom keep_math enclose_urls true true.
+Definition decoder_options (custom : bool) (keep_braced_groups keep_math_mode : option bool) :=
+  resolve_options custom keep_braced_groups keep_math_mode false true.
